@@ -533,6 +533,24 @@ def c15(tier, seed):
                             bad.append('get_ancestral_genome_by_mrca_of_genome_set for %r' % g.name)
                         ex.res.count('mrca_lookups')
                         break
+            # a genome set with a single genome has no common ancestor to return: ValueError (the model: Err.value)
+            for g in (h.get_list_extant_genomes()[:1] + ags[:1]):
+                try:
+                    h.get_ancestral_genome_by_mrca_of_genome_set({g})
+                    bad.append('get_ancestral_genome_by_mrca_of_genome_set of the single genome %r returned something' % g.name)
+                except ValueError:
+                    pass
+                except Exception as e:      # noqa
+                    bad.append('get_ancestral_genome_by_mrca_of_genome_set of a single genome raised %s' % type(e).__name__)
+            # cross-reference values that look like integers are found under their integer form too (keys are str()-ed)
+            for v in list(xm)[:30]:
+                if v.isdigit() and str(int(v)) == v:
+                    try:
+                        if sorted(x.unique_id for x in h.get_genes_by_external_id(int(v))) != sorted(xm[v]):
+                            bad.append('get_genes_by_external_id(int %s) differs from the lookup by the string' % v)
+                        ex.res.count('xref_lookups_by_integer')
+                    except Exception as e:      # noqa
+                        bad.append('get_genes_by_external_id(int %s) raised %s' % (v, type(e).__name__))
             # common ancestor of arbitrary genome sets (2-4 genomes, nested ones included)
             allg = h.get_list_extant_genomes() + ags
             for _ in range(6):
@@ -659,6 +677,20 @@ def c15(tier, seed):
                 ex.fail(cid + '-amb', D2, ['tree with %s raised %s instead of KeyError' % (what, type(e).__name__)])
             D2 = gen.Dataset(T2, 'own' if own else 'synth')
             ex.submit('%s-amb%d' % (cid, ex.res.hist['ambiguous_trees']), D2, o2.tags, ['txcheck'], emit=['tree'], hist=False)
+            if what.startswith('repeated leaf') or (own and what.startswith('repeated internal')):
+                # the same ambiguous tree supplied as PhyloXML (the names are then read from the clade elements): rejected too
+                pxa = os.path.join(ex.tmp, 'amb.phyloxml')
+                with open(pxa, 'w') as fpx:
+                    fpx.write(gen.phyloxml(T2))
+                ex.res.count('ambiguous_trees_as_phyloxml')
+                try:
+                    pyham.Ham(tree_file=pxa, tree_format='phyloxml', hog_file=gen.orthoxml([], []), orthoXML_as_string=True, use_internal_name=own,
+                              phyloxml_leaf_name_tag='taxonomy_scientific_name', phyloxml_internal_name_tag='taxonomy_scientific_name')
+                    ex.fail(cid + '-ambx', D2, ['PhyloXML tree with %s accepted (use_internal_name=%s): %s' % (what, own, nwk)])
+                except KeyError:
+                    pass
+                except Exception as e:      # noqa
+                    ex.fail(cid + '-ambx', D2, ['PhyloXML tree with %s raised %s instead of KeyError' % (what, type(e).__name__)])
         # species_resolve_mode="OMA": a <species> named after a clade is attached to the clade's only child that looks like
         # an OMA code and takes that leaf's name -- listings and lookups by name must agree there too
         if D.naming == 'own':
